@@ -32,6 +32,8 @@ def run(tier, seed, scale):
     early, normal = s.get("resume_arrived_before_suspension_finished(early)", 0), s.get("resume_found_suspended(normal)", 0)
     chk.require(early > 2000 and normal > 2000, "both resume paths must be exercised (early=%d normal=%d)" % (early, normal))
     chk.require(s.get("points.foreign-after-second-task-ran", 0) > 500, "too few 'other work while suspended' points")
+    chk.require(s.get("scenarios_waiting_inside_isolate_in_a_one_slot_arena", 0) > 1000, "only %d scenarios waited inside isolate in a one-slot arena" % s.get("scenarios_waiting_inside_isolate_in_a_one_slot_arena", 0))
+    chk.extra["scenarios_waiting_inside_isolate[all,one-slot arena]"] = [s.get("scenarios_waiting_inside_isolate", 0), s.get("scenarios_waiting_inside_isolate_in_a_one_slot_arena", 0)]
     chk.extra["paths"] = {"early_resume(finalize found 'notified')": early, "normal_resume(found 'suspended')": normal,
                           "continued_on_another_thread": s.get("continued_on_another_thread", 0), "suspend_points": s.get("suspend_points", 0),
                           "by_mode": {k[7:]: v for k, v in s.items() if k.startswith("points.")}}
